@@ -166,6 +166,14 @@ def mapping(ref_fn: ast.AST, act_fn: ast.AST) -> Dict[str, str]:
     staying = act_locals - set(m)
     free_names = {n.id for n in ast.walk(act_fn) if isinstance(n, ast.Name)} - act_locals
     m = {a: r for a, r in m.items() if r not in staying and r not in free_names and r not in _BUILTINS}
+    # dropping a rename makes its source name stay: repeat until no kept rename targets a name that stays
+    # (otherwise two different locals would be merged into one name and the analysed code would not be the code)
+    while True:
+        staying = act_locals - set(m)
+        m2 = {a: r for a, r in m.items() if r not in staying}
+        if len(m2) == len(m):
+            break
+        m = m2
     return m
 
 
